@@ -185,3 +185,254 @@ def vcs(ctx):
                 if (sos_set or eos_set) and (R <= 1 or not ctx.quick):
                     out.append(soseos_vc(R, two_d, tokens_only, sos_set, eos_set, 2 if sos_set else 0, 2 if eos_set else 0))
     return out
+
+
+# ---- P rung: strict validation accepts exactly the well-formed directories, for a SYMBOLIC number of utterances ---------------------
+def validate_vcs(ctx=None):
+    """C12.P.validate_iff_wellformed. The real `_info_and_validate(data_set, info=False, validate=True, fix=None)` (what
+    validate_spect_data_set runs) over a directory of U utterances, U symbolic, each stored object abstracted to a DESCRIPTOR of what
+    the validator can observe: is it a tensor, its dtype class, is it on a GPU, its number of dimensions and sizes, and (2-D
+    references) its rows (token, start, end) - all symbolic, per utterance. WF(i) is the documented condition list for utterance i
+    (relative to utterance 0 for the "one dtype / one width / one reference dimensionality" conditions).
+      loop invariant (utterances):  after k utterances without an exception  FORALL i < k. WF(i), and the carried state is
+                                    (dtype, width, dimensionality) of utterance 0 (None before the first)
+      nested invariant (rows of a 2-D reference): after j rows without an exception every row so far has valid boundaries
+    Obligations: an iteration that completes has WF(k) and re-establishes the state; an iteration that raises raises ValueError and
+    NOT WF(k); nothing is ever written. Hence validation returns iff FORALL i < U. WF(i) (both invariant rules applied outside the
+    solver)."""
+    import ast as _ast
+
+    from vf.pyvc import source
+    from vf.pyvc.interp import LoopSpec, Opaque, PathAbort, PyRaise, Unsupported
+    from vf.pyvc.values import Vec
+
+    U = z3.Int("num_utterances")
+    bf = lambda n: z3.Function(n, z3.IntSort(), z3.BoolSort())
+    nf = lambda n: z3.Function(n, z3.IntSort(), z3.IntSort())
+    FTEN, FCUDA, ATEN, ACUDA, RTEN, RCUDA = bf("feat_is_tensor"), bf("feat_on_gpu"), bf("ali_is_tensor"), bf("ali_on_gpu"), bf("ref_is_tensor"), bf("ref_on_gpu")
+    FDT, FND, FT, FF = nf("feat_dtype"), nf("feat_ndim"), nf("frames"), nf("feat_width")
+    AKIND, AND_, ATP = nf("ali_dtype_class"), nf("ali_ndim"), nf("ali_length")  # dtype class: 0 long, 1 smaller integer, 2 anything else
+    RKIND, RND, RS1, RN = nf("ref_dtype_class"), nf("ref_ndim"), nf("ref_size1"), nf("ref_rows")
+    RTOK = z3.Function("ref_token", z3.IntSort(), z3.IntSort(), z3.IntSort())
+    RA = z3.Function("ref_start", z3.IntSort(), z3.IntSort(), z3.IntSort())
+    RB = z3.Function("ref_end", z3.IntSort(), z3.IntSort(), z3.IntSort())
+    i_, j_ = z3.Ints("i_q j_q")
+    J0 = z3.Int("row_q")
+    fdef = source.find_def("pydrobert.torch._datasets", "_info_and_validate")
+    loops = source.find_loops(fdef)
+    ordinal = lambda text: [k for k, l in enumerate(loops) if isinstance(l, _ast.For) and _ast.unparse(l.iter) == text]
+    o_utt, o_rows, o_toks = ordinal("range(len(data_set))"), ordinal("enumerate(ref)"), ordinal("ref.tolist()")
+    if not (len(o_utt) == len(o_rows) == len(o_toks) == 1):
+        raise AssertionError("the three loops of _info_and_validate were not located")
+
+    def make_vc(has_ali, has_ref):
+        name = "_info_and_validate[strict; symbolic number of utterances; alignments=%s, references=%s]" % (has_ali, has_ref)
+        row_ok = lambda i, j: z3.Or(z3.And(RA(i, j) < 0, RB(i, j) < 0), z3.And(0 <= RA(i, j), RA(i, j) <= RB(i, j), RB(i, j) <= FT(i)))
+
+        def WF(i):
+            c = [FTEN(i), z3.Not(FCUDA(i)), FND(i) == 2, FDT(i) == FDT(0), FF(i) == FF(0)]
+            if has_ali:
+                c += [ATEN(i), AKIND(i) == 0, z3.Not(ACUDA(i)), AND_(i) == 1, ATP(i) == FT(i)]
+            if has_ref:
+                c += [RTEN(i), RKIND(i) == 0, z3.Not(RCUDA(i)), z3.Or(RND(i) == 1, RND(i) == 2), RND(i) == RND(0),
+                      z3.Implies(RND(i) == 2, z3.And(RS1(i) == 3, z3.ForAll([j_], z3.Implies(z3.And(0 <= j_, j_ < RN(i)), row_ok(i, j_)))))]
+            return z3.And(c)
+
+        class DevType:
+            def __init__(self, cuda):
+                self.cuda = cuda
+
+            def __vc_compare__(self, I, op, other, reflected):
+                if other != "cuda":
+                    raise Unsupported("device type compared with %r" % (other,))
+                return self.cuda if isinstance(op, _ast.Eq) else z3.Not(self.cuda)
+
+        class Dev:
+            def __init__(self, cuda):
+                self.cuda = cuda
+
+            def __vc_getattr__(self, I, nm):
+                if nm == "type":
+                    return DevType(self.cuda)
+                raise Unsupported("device.%s" % nm)
+
+        class TDesc:
+            """what the validator can observe of one stored object"""
+
+            def __init__(self, role, i):
+                self.role, self.i = role, i
+                self.rows_1d = False
+
+            def __vc_isinstance__(self, I, ts):
+                import torch
+
+                i = self.i
+                ten = {"feat": FTEN, "ali": ATEN, "ref": RTEN}[self.role](i)
+                kind = {"ali": AKIND, "ref": RKIND}.get(self.role)
+                alts = []
+                for t in ts:
+                    if t is torch.Tensor:
+                        alts.append(ten)
+                    elif t is torch.LongTensor and kind is not None:
+                        alts.append(z3.And(ten, kind(i) == 0))
+                    elif t in (torch.ByteTensor, torch.CharTensor, torch.ShortTensor, torch.IntTensor) and kind is not None:
+                        alts.append(z3.And(ten, kind(i) == 1))
+                    else:
+                        raise Unsupported("isinstance(%s, %r)" % (self.role, t))
+                return z3.Or(alts) if len(alts) > 1 else alts[0]
+
+            def __vc_getattr__(self, I, nm):
+                i, me = self.i, self
+                meth = lambda fn: type("M_", (), {"__vc_call__": lambda s, I2, a, k: fn(*a)})()
+                if nm == "device":
+                    return Dev({"feat": FCUDA, "ali": ACUDA, "ref": RCUDA}[self.role](i))
+                if self.role == "feat":
+                    if nm == "dtype":
+                        return FDT(i)
+                    if nm == "dim":
+                        return meth(lambda: FND(i))
+                    if nm == "shape":
+                        return (FT(i), FF(i))  # read only after dim() == 2 was checked
+                elif self.role == "ali":
+                    if nm == "ndim":
+                        return AND_(i)
+                    if nm == "size":
+                        return meth(lambda d: ATP(i) if d == 0 else (_ for _ in ()).throw(Unsupported("ali.size(%r)" % d)))
+                    if nm == "shape":
+                        return (ATP(i),)
+                else:
+                    if nm == "ndim":
+                        return z3.IntVal(2) if me.rows_1d else RND(i)
+                    if nm == "size":
+                        return meth(lambda d: RN(i) if d == 0 else (RS1(i) if d == 1 else (_ for _ in ()).throw(Unsupported("ref.size(%r)" % d))))
+                    if nm == "unsqueeze":
+                        def uns(d):
+                            me.rows_1d = True
+                            return me
+                        return meth(uns)
+                    if nm == "tolist":
+                        return meth(lambda: me)
+                raise Unsupported("%s.%s is not part of the descriptor (strict validation does not use it)" % (self.role, nm))
+
+        class DS:
+            fields = {"file_prefix": "p_", "file_suffix": ".pt", "data_dir": "d", "feat_subdir": "feat", "ali_subdir": "ali", "ref_subdir": "ref", "has_ali": has_ali, "has_ref": has_ref}
+
+            def __vc_getattr__(self, I, nm):
+                if nm == "utt_ids":
+                    return type("Ids", (), {"__vc_getitem__": lambda s, I2, idx: "u"})()
+                if nm in self.fields:
+                    return self.fields[nm]
+                raise Unsupported("data_set.%s" % nm)
+
+            def __vc_len__(self, I):
+                return U
+
+        def thunk(I):
+            import pydrobert.torch._datasets as dsm
+
+            I.ex.ghost.update(k=None, wrote=False)
+            I.stubs["posixpath.join"] = lambda I2, *a: ("join",) + tuple(a)
+
+            def load(I2, pth, *a, **k):
+                if not (isinstance(pth, tuple) and pth[0] == "join" and pth[-2] in ("feat", "ali", "ref") and pth[-1] == "p_u.pt" and I2.ex.ghost["k"] is not None):
+                    raise Unsupported("torch.load(%r)" % (pth,))
+                return TDesc(pth[-2], I2.ex.ghost["k"])
+
+            def save(I2, obj, pth, *a, **k):
+                I2.ex.ghost["wrote"] = True
+
+            I.stubs["torch.serialization.load"] = I.stubs["torch.load"] = load
+            I.stubs["torch.serialization.save"] = I.stubs["torch.save"] = save
+            I.stubs["torch.full"] = lambda I2, *a, **k: Opaque("full")
+            I.stubs["torch.cat"] = lambda I2, ts, *a, **k: next(t for t in ts if isinstance(t, TDesc))
+            I.stubs["builtins.enumerate"] = lambda I2, it, start=0: it if isinstance(it, TDesc) else [(start + n, x) for n, x in enumerate(I2.iterate(it))]
+            return I.call(dsm._info_and_validate, [DS(), False, True], {"fix": None})
+
+        class Utterances(LoopSpec):
+            def run(self, I, s, f):
+                c = I.ex.choose(4 if has_ref else 3)
+                if c == 0:  # the loop is over: every utterance completed
+                    I.ex.assume(z3.ForAll([i_], z3.Implies(z3.And(0 <= i_, i_ < U), WF(i_))))
+                    I.ex.ghost["k"] = None
+                    return
+                if c == 1:  # the first utterance: nothing carried yet
+                    k = z3.IntVal(0)
+                    I.ex.assume(U >= 1)
+                    carried = {"feat_dtype": None, "num_filts": None, "ref_is_2d": None}
+                else:  # a later utterance: the state is utterance 0's; for references the two dimensionalities are two cases
+                    k = I.ex.fresh("int", "utt")
+                    I.ex.assume(z3.And(1 <= k, k < U))
+                    I.ex.assume(z3.ForAll([i_], z3.Implies(z3.And(0 <= i_, i_ < k), WF(i_))))
+                    I.ex.assume(WF(z3.IntVal(0)))
+                    two_d = (c == 2)
+                    if has_ref:
+                        I.ex.assume(RND(0) == (2 if two_d else 1))
+                    carried = {"feat_dtype": FDT(0), "num_filts": FF(0), "ref_is_2d": (two_d if has_ref else None)}
+                for nm, v in carried.items():
+                    ip.local(f, nm)
+                    f.locals[nm] = v
+                I.ex.ghost["k"] = k
+                I.assign(s.target, k, f)
+                I.exec_block(s.body, f)
+                same = lambda a, b: z3.BoolVal(a is b) if (a is None or b is None or isinstance(a, bool) or isinstance(b, bool)) else ip.to_z3(a) == ip.to_z3(b)
+                state_ok = z3.And(same(ip.local(f, "feat_dtype"), FDT(0)), same(ip.local(f, "num_filts"), FF(0)),
+                                  same(ip.local(f, "ref_is_2d"), None) if not has_ref else z3.If(RND(0) == 2, same(ip.local(f, "ref_is_2d"), True), same(ip.local(f, "ref_is_2d"), False)))
+                I.ex.oblige("utterance.completes_only_if_wellformed", WF(k))
+                I.ex.oblige("utterance.state_is_that_of_the_first", state_ok)
+                I.ex.oblige("utterance.nothing_written", z3.BoolVal(not I.ex.ghost["wrote"]))
+                raise PathAbort()
+
+        class Rows(LoopSpec):
+            """for idx2, r in enumerate(ref): rows of a 2-D reference of utterance k"""
+
+            def run(self, I, s, f):
+                k = I.ex.ghost["k"]
+                ip.local(f, "write_back")
+                if I.ex.choose(2) == 0:
+                    j = I.ex.fresh("int", "row")
+                    I.ex.assume(z3.And(0 <= j, j < RN(k)))
+                    I.ex.ghost["row"] = j
+                    I.assign(s.target, (j, Vec([RTOK(k, j), RA(k, j), RB(k, j)])), f)
+                    I.exec_block(s.body, f)
+                    wb = ip.local(f, "write_back")
+                    I.ex.oblige("row.completes_only_if_valid", row_ok(k, j))
+                    I.ex.oblige("row.strict_mode_never_repairs", z3.BoolVal(wb is False))
+                    raise PathAbort()
+                I.ex.ghost["row"] = None
+                I.ex.assume(z3.ForAll([j_], z3.Implies(z3.And(0 <= j_, j_ < RN(k)), row_ok(k, j_))))
+
+        class Tokens(LoopSpec):
+            """for tok, start, end in ref.tolist(): only rejects negative token ids (outside the property's domain)"""
+
+            def run(self, I, s, f):
+                k = I.ex.ghost["k"]
+                if I.ex.choose(2) == 0:
+                    j = I.ex.fresh("int", "tok_row")
+                    I.ex.assume(z3.And(0 <= j, j < RN(k), RTOK(k, j) >= 0))  # domain: token ids are non-negative
+                    I.assign(s.target, (RTOK(k, j), RA(k, j), RB(k, j)), f)
+                    I.exec_block(s.body, f)
+                    raise PathAbort()
+
+        loopspecs = {("_info_and_validate", o_utt[0]): Utterances("utterances", None, None, None, {}), ("_info_and_validate", o_rows[0]): Rows("rows", None, None, None, {}),
+                     ("_info_and_validate", o_toks[0]): Tokens("tokens", None, None, None, {})}
+
+        def post(p):
+            k = p.ghost.get("k")
+            if p.outcome == "raise":
+                if not api.raises(p, "ValueError"):
+                    return [("only_ValueError_is_raised", z3.BoolVal(False))]
+                if k is None:
+                    return [("raises_only_inside_an_utterance", z3.BoolVal(False))]
+                return [("raises_only_if_not_wellformed", z3.Not(WF(k))), ("nothing_written_before_raising", z3.BoolVal(not p.ghost["wrote"]))]
+            if not api.returns(p):
+                return False
+            return [("returns_none_after_the_last_utterance", z3.BoolVal(p.value is None and k is None)), ("nothing_written", z3.BoolVal(not p.ghost["wrote"]))]
+
+        return VC("C12.P.validate_iff_wellformed", name, M, "_info_and_validate", thunk, pre=[U >= 0], posts=[("accepts_exactly_wellformed_directories", post)], loops=loopspecs,
+                  inputs={"num_utterances": U}, timeout_ms=30000, max_paths=4000,
+                  twins=[("rejects_everything", lambda p: z3.BoolVal(False) if api.returns(p) else None)],
+                  assumptions=["stored objects abstracted to descriptors (tensor?, dtype class, device, dimensions, sizes, rows of a 2-D reference) with torch's isinstance / ndim / size / device.type semantics on them; torch.load / torch.save / os.path.join abstracted",
+                               "strict mode (fix=None), info=False: the fixing variants are C12.val.ref_bounds / ali_len (fragments, unbounded) and the bounded driver; token ids non-negative (the property's domain)",
+                               "both loop-invariant rules applied outside the solver; message strings are not modelled"])
+
+    return [make_vc(a, r) for a in (False, True) for r in (False, True)]
